@@ -8,7 +8,13 @@
   notification of the sequencer and the pop of its queue), and the sequencer
   (`collectStorageWriteEvents`) which consumes slot `committed + 1`.
   Steps of different requests and of the retry loop interleave arbitrarily; a schedule is a list of actions.
-  Ghost state (never read by a step): the log of successful commits and of finished requests.
+  The creator (`CreateWithTTL`) as it is since /repo eb6d1d1: put-if-absent (`createCommit`), [read of the record when the
+  conflict does not carry it: `createReread`], then the bounded loop — compare-and-swap against the deletion record seen
+  (`createOver rev old att`), on a failed condition read the record again (`createRecheck rev att`): gone → put-if-absent
+  again (`createRetry`), still a deletion below `rev` → next compare-and-swap against the record as it is now (at most 4
+  in all), anything else → failed condition. `Cfg.creatorNoReeval` = the creator before that fix (refutations only).
+  Ghost state (never read by a step): the log of successful commits and of finished requests, and for every finished
+  request the piece of the log that was applied while it was in flight (`begins`, `spans`).
 -/
 import KB.Backend
 import KB.Spec
@@ -32,8 +38,8 @@ inductive Pc where
   | createCommit (rev : Nat)               -- dealt; about to commit [putIfAbsent idx, put ver]
   | createReread (rev : Nat)               -- conflict without value (Idx ≠ 0): about to read the index
   | createRetry (rev : Nat)                -- index vanished: about to commit the create batch again
-  | createOver (rev : Nat) (old : Bytes)   -- tombstoned index seen: about to commit [cas idx old→rev, put ver]
-  | createRecheck (rev : Nat)              -- that cas failed its condition: about to read the index again (it may have been compacted away)
+  | createOver (rev : Nat) (old : Bytes) (att : Nat)  -- tombstoned index seen: about to commit [cas idx old→rev, put ver]; `att` = loop counter `attempt`
+  | createRecheck (rev : Nat) (att : Nat)  -- that cas failed its condition: about to read the index again (compacted away? rewritten by a repair?)
   | updateCommit (rev : Nat)               -- dealt, no drift: about to commit [cas idx exp→rev, put ver]
   | deleteDeal (old : Option (Bytes × Nat)) -- latest read; about to deal
   | deleteCommit (rev : Nat) (oldVal : Bytes) (modRev : Nat)
@@ -83,6 +89,15 @@ structure RetryPc where
   val : Bytes
   deriving Repr, DecidableEq
 
+/-- Ghost: the part of `wlog` that was applied while a finished request was in flight
+(`wlog[beginLog, endLog)`); `rev` = the revision the request dealt (unique: `C02.deal_unique`). -/
+structure Span where
+  id : Nat
+  rev : Nat
+  beginLog : Nat
+  endLog : Nat
+  deriving Repr, DecidableEq
+
 structure G where
   cfg : Cfg := {}
   store : Store := []
@@ -100,6 +115,8 @@ structure G where
   hist : List HWrite := []          -- batches the engine applied (incl. "unknown outcome, applied"), in commit order
   wlog : List WLog := []            -- the same, with the condition each was committed under
   done : List Done := []
+  begins : List (Nat × Nat) := []   -- (request id, length of `wlog` when it began), newest first
+  spans : List Span := []           -- one entry per finished request, in the order of `done`
   deriving Repr
 
 inductive Action where
@@ -116,10 +133,14 @@ def G.client (g : G) (id : Nat) : Option Client := g.clients.find? (·.id == id)
 def G.setClient (g : G) (c : Client) : G :=
   { g with clients := g.clients.map (fun x => if x.id == c.id then c else x) }
 
+/-- ghost: length of `wlog` when the request now running under `id` began -/
+def G.beginOf (g : G) (id : Nat) : Nat := ((g.begins.find? (·.1 == id)).map (·.2)).getD 0
+
 def G.finish (g : G) (c : Client) (res : WriteRes) (rev : Nat) : G :=
   { g with clients := g.clients.filter (·.id != c.id),
            done := g.done ++ [{ id := c.id, kind := c.kind, res := res, rev := rev,
-                                beginDealt := c.beginDealt, endDealt := g.dealt }] }
+                                beginDealt := c.beginDealt, endDealt := g.dealt }],
+           spans := g.spans ++ [{ id := c.id, rev := rev, beginLog := g.beginOf c.id, endLog := g.wlog.length }] }
 
 /-- `notify`: fill the slot of `rev` (revision 0 fills nothing). -/
 def G.notify (g : G) (w : WEvent) : G :=
@@ -156,12 +177,15 @@ def finishCreate (g : G) (c : Client) (key val : Bytes) (rev : Nat) (r : CommitR
     | _ => g.finish c (.condFailed rev none) rev
   | r => g.finish c (.error (commitErr r)) rev
 
-/-- Decide what to do with the old index value seen by a conflicting create. -/
-def createSawIndex (g : G) (c : Client) (key val : Bytes) (rev : Nat) (old : Bytes) : G :=
+/-- Decide what to do with the index value seen by a conflicting create (`att = 0`: the value its put-if-absent
+ran into; `att > 0`: the value read again after `att` failed compare-and-swaps, fix eb6d1d1): a deletion record
+older than this revision is overwritten by compare-and-swap (loop body, attempt `att`); anything else is a failed
+condition. A value that does not parse is `parseErr` the first time, the failed compare-and-swap's `err` later. -/
+def createSawIndex (g : G) (c : Client) (key val : Bytes) (rev : Nat) (old : Bytes) (att : Nat := 0) : G :=
   match parseRevision old with
-  | none => finishCreate g c key val rev .err
+  | none => finishCreate g c key val rev (if att == 0 then .err else .conflict none none)
   | some (prevRev, tomb) =>
-    if tomb && prevRev < rev then g.setClient { c with pc := .createOver rev old }
+    if tomb && prevRev < rev then g.setClient { c with pc := .createOver rev old att }
     else finishCreate g c key val rev (.conflict none none)
 
 /-- One atomic step of client `c` (fault `f` applies if the step is a commit). -/
@@ -209,7 +233,7 @@ def stepClient (g : G) (c : Client) (f : Fault) : G :=
     let g := { g with store := st }
     let g := if applied r f then g.logWrite key rev (some val) else g
     finishCreate g c key val rev r
-  | .createOver rev old, k =>
+  | .createOver rev old att, k =>
     let (key, val) := match k with
       | .create k v => (k, v)
       | .update k v _ => (k, v)
@@ -218,15 +242,19 @@ def stepClient (g : G) (c : Client) (f : Fault) : G :=
     let g := { g with store := st }
     let g := if applied r f then g.logWrite key rev (some val) else g
     match r with
-    | .conflict _ _ => g.setClient { c with pc := .createRecheck rev }
+    | .conflict _ _ => g.setClient { c with pc := .createRecheck rev att }
     | r => finishCreate g c key val rev r
-  | .createRecheck rev, k =>
+  | .createRecheck rev att, k =>
     let (key, val) := match k with
       | .create k v => (k, v)
       | .update k v _ => (k, v)
       | .delete k _ => (k, [])
+    -- the record is read again: gone (compacted) -> put-if-absent again (c592466); still there -> since eb6d1d1
+    -- it is looked at (at most 4 compare-and-swaps: `attempt >= 3` gives up); before, it meant a failed condition
     match g.store.get (idxKey key) with
-    | some _ => finishCreate g c key val rev (.conflict none none)
+    | some cur =>
+      if cf.creatorNoReeval || att ≥ 3 then finishCreate g c key val rev (.conflict none none)
+      else createSawIndex g c key val rev cur (att + 1)
     | none => g.setClient { c with pc := .createRetry rev }
   -- ---- guarded update
   | .updateCommit rev, .update key val exp =>
@@ -325,7 +353,8 @@ def stepRetry (g : G) (f : Fault) : G := stepRetryCommit (stepRetryRead g) f
 def act (g : G) : Action → G
   | .begin id kind =>
     if (g.client id).isSome then g
-    else { g with clients := g.clients ++ [{ id := id, kind := kind, pc := .start, beginDealt := g.dealt }] }
+    else { g with clients := g.clients ++ [{ id := id, kind := kind, pc := .start, beginDealt := g.dealt }],
+                  begins := (id, g.wlog.length) :: g.begins }
   | .step id f =>
     match g.client id with
     | none => g
